@@ -37,6 +37,11 @@
 //! * [`tracker_add`] / [`tracker_remove`] — deliver a block to `node.get_tracker()` through
 //!   `block_chunk` + `add_block` / `remove_block`, with forward / reverse watches read from the
 //!   tracker itself; panics are caught and returned as [`Deliver::Panic`].
+//! * [`wire_add`] / [`wire_remove`] — deliver a block the way the chain follower of a deployment
+//!   does (vls-frontend `ChainFollower::update` + vls-proxy `NodePortFront`), with protocol messages
+//!   to a `RootHandler` only: `TipInfo`, `ForwardWatches` / `ReverseWatches`, a proof for exactly the
+//!   watches of the reply, `BlockChunk`s for an `ExternalBlock` proof, `AddBlock` / `RemoveBlock`.
+//!   Every request and every reply crosses the wire encoding.  [`WireLog`] records (message, result).
 //! * [`DirectListeners`] — level-A driver: clones the production `ChainMonitor`s (with their
 //!   production commitment-point providers) out of the tracker and performs the same listener calls
 //!   and `ListenSlot` bookkeeping as `ChainTracker::notify_listeners_add/remove`, compact or
@@ -83,6 +88,9 @@ use txoo::proof::{ProofType, TxoProof};
 use txoo::spv::SpvProof;
 use txoo::util::sign_attestation;
 use txoo::Attestation;
+use vls_protocol::msgs::{self, Message};
+use vls_protocol::serde_bolt::{LargeOctets, Octets};
+use vls_protocol_signer::handler::{Handler, RootHandler};
 
 // ---------------------------------------------------------------------------------------------
 // world / channel preparation
@@ -465,6 +473,9 @@ pub struct SimBlock {
     pub txs: Vec<PoolTx>,
     /// filter header of this block (chain of TXOO filter headers)
     pub filter_header: FilterHeader,
+    /// filter header of the block below (what a chain follower takes from its own chain source
+    /// when it builds the proof for this block)
+    pub prev_filter_header: FilterHeader,
 }
 
 #[derive(Clone, Debug)]
@@ -718,8 +729,9 @@ impl ChainSim {
         (block, pending)
     }
     pub fn push(&mut self, block: Block, txs: Vec<PoolTx>) {
-        let fh = BlockSpendFilter::from_block(&block).filter_header(&self.tip_filter_header());
-        self.blocks.push(SimBlock { block, txs, filter_header: fh });
+        let prev_fh = self.tip_filter_header();
+        let fh = BlockSpendFilter::from_block(&block).filter_header(&prev_fh);
+        self.blocks.push(SimBlock { block, txs, filter_header: fh, prev_filter_header: prev_fh });
     }
     pub fn pop(&mut self) -> Option<SimBlock> {
         self.blocks.pop()
@@ -921,6 +933,204 @@ pub fn tracker_remove(node: &Arc<Node>, block: &Block, prev: Headers, stream: bo
         Ok(Err(e)) => Deliver::Refused(format!("{}{:?}", if external { "[external] " } else { "" }, e)),
         Err(p) => Deliver::Panic(p),
     }
+}
+
+// ---------------------------------------------------------------------------------------------
+// wire delivery: what the chain follower of a deployment sends to the root handler
+
+/// (message name, result) of every protocol message of the deliveries made so far; results are
+/// "ok", "orphan" (AddBlock answered with SignerError CODE_ORPHAN_BLOCK), "not-parent" / "not-tip"
+/// (TipInfo named another block than the one the delivery builds on / removes), "refused" (error
+/// reply), "panic".
+#[derive(Default, Debug)]
+pub struct WireLog {
+    pub msgs: Vec<(&'static str, &'static str)>,
+    /// number of BlockChunk messages sent
+    pub chunks: u64,
+    /// watches carried by the last ForwardWatches / ReverseWatches reply
+    pub last_watches: (usize, usize),
+}
+
+impl WireLog {
+    /// the message whose handler panicked, if any
+    pub fn panic_site(&self) -> Option<&'static str> {
+        self.msgs.iter().find(|(_, r)| *r == "panic").map(|(m, _)| *m)
+    }
+}
+
+impl WireLog {
+    /// distinct (message, result) pairs, sorted, as "wire:<message>:<result>"
+    pub fn classes(&self) -> Vec<String> {
+        let s: BTreeSet<String> = self.msgs.iter().map(|(m, r)| format!("wire:{}:{}", m, r)).collect();
+        s.into_iter().collect()
+    }
+}
+
+enum WireFail {
+    Refused(String),
+    Panic(String),
+}
+
+/// One request to the root handler: serialised, parsed back, handled; the reply is serialised and
+/// parsed back as well (it is what the follower reads).
+fn wire_request(root: &RootHandler, name: &'static str, msg: Message, log: &mut WireLog) -> Result<Message, WireFail> {
+    let bytes = msg.inner().as_vec();
+    let msg = msgs::from_vec(bytes).expect("well-formed request survives the wire");
+    let r = catch(|| root.handle(msg).map(|reply| reply.as_vec()));
+    match r {
+        Ok(Ok(bytes)) => match msgs::from_vec(bytes) {
+            Ok(m) => Ok(m),
+            Err(e) => {
+                log.msgs.push((name, "reply-undecodable"));
+                Err(WireFail::Refused(format!("{}: reply does not parse: {:?}", name, e)))
+            }
+        },
+        Ok(Err(e)) => {
+            log.msgs.push((name, "refused"));
+            Err(WireFail::Refused(format!("{}: {:?}", name, e)))
+        }
+        Err(p) => {
+            log.msgs.push((name, "panic"));
+            Err(WireFail::Panic(p))
+        }
+    }
+}
+
+fn wire_tip_info(root: &RootHandler, log: &mut WireLog) -> Result<(u32, BlockHash), WireFail> {
+    match wire_request(root, "TipInfo", Message::TipInfo(msgs::TipInfo {}), log)? {
+        Message::TipInfoReply(m) => Ok((m.height, m.block_hash)),
+        m => Err(WireFail::Refused(format!("TipInfo: unexpected reply {:?}", m))),
+    }
+}
+
+/// `TipInfo` alone: the (height, block hash) the signer reports as its tip (what the follower
+/// starts every update with, e.g. to resynchronise after the signer was restarted).
+pub fn wire_tip(root: &RootHandler, log: &mut WireLog) -> Result<(u32, BlockHash), String> {
+    match wire_tip_info(root, log) {
+        Ok(t) => {
+            log.msgs.push(("TipInfo", "ok"));
+            Ok(t)
+        }
+        Err(WireFail::Refused(e)) => Err(e),
+        Err(WireFail::Panic(p)) => Err(format!("PANIC {}", p)),
+    }
+}
+
+/// The follower's `maybe_stream_block`: the block in `BlockChunk` messages of `chunk` bytes
+/// (0 = as few as the 16-bit length of the content field allows).
+fn wire_stream(root: &RootHandler, block: &Block, chunk: usize, log: &mut WireLog) -> Result<(), WireFail> {
+    let bytes = serialize(block);
+    let chunk = if chunk == 0 || chunk > 0xffff { 0xffff } else { chunk };
+    let hash = block.block_hash();
+    let mut off = 0u32;
+    for c in bytes.chunks(chunk) {
+        let req = Message::BlockChunk(msgs::BlockChunk { hash, offset: off, content: Octets(c.to_vec()) });
+        log.chunks += 1;
+        match wire_request(root, "BlockChunk", req, log)? {
+            Message::BlockChunkReply(_) => {}
+            m => return Err(WireFail::Refused(format!("BlockChunk: unexpected reply {:?}", m))),
+        }
+        off += c.len() as u32;
+    }
+    log.msgs.push(("BlockChunk", "ok"));
+    Ok(())
+}
+
+fn wire_outcome(r: Result<(), WireFail>) -> Deliver {
+    match r {
+        Ok(()) => Deliver::Ok,
+        Err(WireFail::Refused(e)) => Deliver::Refused(e),
+        Err(WireFail::Panic(p)) => Deliver::Panic(p),
+    }
+}
+
+/// Connect `block` as the chain follower does, through protocol messages to the root handler
+/// only: `TipInfo` (the height of the attestation is the reported height + 1), `ForwardWatches`,
+/// a proof for exactly the txids / outpoints of the reply, the block in `BlockChunk`s if the proof
+/// is `ExternalBlock` (`stream`, or a filter false positive), `AddBlock`.
+/// `prev_filter_header` is the filter header of the block below, which the follower has from its
+/// own chain source (no protocol message reports it).
+/// `Deliver::Refused` = an error reply (an orphan: "OrphanBlock: ..."); `Deliver::Panic` = the
+/// handler panicked (it does so on every refusal of a block other than an orphan).
+pub fn wire_add(root: &RootHandler, block: &Block, prev_filter_header: &FilterHeader, stream: bool, chunk: usize, log: &mut WireLog) -> Deliver {
+    wire_add_with(root, block, prev_filter_header, stream, chunk, log, |p| p)
+}
+
+/// As [`wire_add`]; `tweak` may replace the proof the follower built (e.g. its attestations)
+/// before it is streamed / sent.
+pub fn wire_add_with(root: &RootHandler, block: &Block, prev_filter_header: &FilterHeader, stream: bool, chunk: usize, log: &mut WireLog, tweak: impl FnOnce(TxoProof) -> TxoProof) -> Deliver {
+    let r = (|| -> Result<(), WireFail> {
+        let (height, tip) = wire_tip_info(root, log)?;
+        log.msgs.push(("TipInfo", if tip == block.header.prev_blockhash { "ok" } else { "not-parent" }));
+        let (txids, outpoints) = match wire_request(root, "ForwardWatches", Message::ForwardWatches(msgs::ForwardWatches {}), log)? {
+            Message::ForwardWatchesReply(m) => (m.txids.0, m.outpoints.0),
+            m => return Err(WireFail::Refused(format!("ForwardWatches: unexpected reply {:?}", m))),
+        };
+        log.msgs.push(("ForwardWatches", "ok"));
+        log.last_watches = (txids.len(), outpoints.len());
+        let proof = tweak(make_proof(block, prev_filter_header, height + 1, &txids, &outpoints, stream));
+        if proof.proof.is_external() {
+            wire_stream(root, block, chunk, log)?;
+        }
+        let req = Message::AddBlock(msgs::AddBlock { header: Octets(serialize(&block.header)), unspent_proof: Some(msgs::DebugTxoProof(proof)) });
+        match wire_request(root, "AddBlock", req, log)? {
+            Message::AddBlockReply(_) => {
+                log.msgs.push(("AddBlock", "ok"));
+                Ok(())
+            }
+            Message::SignerError(e) if e.code == msgs::CODE_ORPHAN_BLOCK => {
+                log.msgs.push(("AddBlock", "orphan"));
+                Err(WireFail::Refused(format!("OrphanBlock: {}", String::from_utf8_lossy(&e.message.0))))
+            }
+            m => {
+                log.msgs.push(("AddBlock", "refused"));
+                Err(WireFail::Refused(format!("AddBlock: unexpected reply {:?}", m)))
+            }
+        }
+    })();
+    wire_outcome(r)
+}
+
+/// Disconnect `block` (the signer's tip; `prev` are the headers below it) as the chain follower
+/// does: `TipInfo` (the height of the attestation is the reported height), `ReverseWatches`, a
+/// proof for exactly the watches of the reply, `BlockChunk`s if the proof is `ExternalBlock`,
+/// `RemoveBlock`.  A follower removes a block only when `TipInfo` names it: otherwise nothing is
+/// sent and the result is `Refused("TipInfo: ...")`.
+pub fn wire_remove(root: &RootHandler, block: &Block, prev: Headers, stream: bool, chunk: usize, log: &mut WireLog) -> Deliver {
+    let r = (|| -> Result<(), WireFail> {
+        let (height, tip) = wire_tip_info(root, log)?;
+        if tip != block.block_hash() {
+            log.msgs.push(("TipInfo", "not-tip"));
+            return Err(WireFail::Refused(format!("TipInfo: the signer's tip is {} at height {}, not the block to remove {}", tip, height, block.block_hash())));
+        }
+        log.msgs.push(("TipInfo", "ok"));
+        let (txids, outpoints) = match wire_request(root, "ReverseWatches", Message::ReverseWatches(msgs::ReverseWatches {}), log)? {
+            Message::ReverseWatchesReply(m) => (m.txids.0, m.outpoints.0),
+            m => return Err(WireFail::Refused(format!("ReverseWatches: unexpected reply {:?}", m))),
+        };
+        log.msgs.push(("ReverseWatches", "ok"));
+        log.last_watches = (txids.len(), outpoints.len());
+        let proof = make_proof(block, &prev.1, height, &txids, &outpoints, stream);
+        if proof.proof.is_external() {
+            wire_stream(root, block, chunk, log)?;
+        }
+        let req = Message::RemoveBlock(msgs::RemoveBlock {
+            unspent_proof: Some(LargeOctets(serialize(&proof))),
+            prev_block_header: prev.0,
+            prev_filter_header: prev.1,
+        });
+        match wire_request(root, "RemoveBlock", req, log)? {
+            Message::RemoveBlockReply(_) => {
+                log.msgs.push(("RemoveBlock", "ok"));
+                Ok(())
+            }
+            m => {
+                log.msgs.push(("RemoveBlock", "refused"));
+                Err(WireFail::Refused(format!("RemoveBlock: unexpected reply {:?}", m)))
+            }
+        }
+    })();
+    wire_outcome(r)
 }
 
 // ---------------------------------------------------------------------------------------------
